@@ -34,6 +34,12 @@ CHECKS = {
  "C14": ("generated PNG sets x metrics x {cbdt,sbix} (+ gid-gap fonts through make_cbdt_table); byte identity and placement formulas from the statement", "§4 C14",
          "Generated bitmap builds; stored image bytes, ppem, vertical/horizontal placement, pixel advance and rejection of unrepresentable combinations are recomputed from the statement's formulas on the reloaded CBDT/CBLC/sbix tables. Sampling.",
          "Trusted: fontTools CBDT/CBLC/sbix decompilers. 'Within rounding' is read as: either scale ppem/upem or h/emh (ppem is itself a rounding), plus half a font unit of advance."),
+ "C10": ("generated round trips: config TOML (incl. flag/file/default precedence), glyph-map CSV, ninja response files, file-name/glyph-name codecs, parts JSON", "§4 C10",
+         "Five generated round trips with equality oracles (write -> read == original; precedence model flag > file > default; injectivity and legality of glyph names incl. a feaLib parse); real ninja for response files. Sampling of large string/number domains.",
+         "Trusted: Python csv/json, fontTools feaLib parser, ninja. Third-party toml 0.10.2 cannot round-trip non-printable characters (excluded)."),
+ "C11": ("generated fonts with all GSUB/GPOS/GDEF lookup types and formats x permutations; name-keyed semantic normal form before/after reorder+save+reload; stored coverage order", "§4 C11",
+         "Generated fonts (feaLib-compiled grammar + hand-assembled Context/ChainContext formats 1-3, extension lookups, GDEF, COLR v0/v1, TrueType and CFF) are reordered by generated permutations; a name-keyed normal form of every table must be unchanged after save+reload, every stored Coverage and PairSet must be in glyph-id order. Sampling; each _REORDER_RULES entry was deleted in turn and is detected.",
+         "Trusted: fontTools compilers/decompilers; vlib/layoutsem.py normal form (raises on a subtable kind it cannot express)."),
 }
 NOT_APPLICABLE = []
 def main():
